@@ -73,12 +73,16 @@ def gen_cases(run):
     maxlen = 200 if run.thorough else 40
     cases = []
     for i in range(n):
-        g = Gen(run.rng, W_FULL, malformed=0.08, bounds=(i % 5 == 0))
+        # every third history registers move hooks, some of which set F / S: the line then carries the hook's value and
+        # the state must mirror THAT value
+        g = Gen(run.rng, dict(W_FULL, hook=(3 if i % 3 == 1 else 0)), malformed=0.08, bounds=(i % 5 == 0))
         cases.append((run.rng.choice([0, 2, 5, 8]), g.history(run.rng.randint(6, maxlen))))
     return cases
 
 
 CORPUS = [
+    (5, [("add_hook", ("set", 1, "F", Fraction(1000))), ("move", "linear", {"x": Fraction(10)}, [("F", Fraction(2500))]),
+         ("move", "linear", {"x": Fraction(20)}, []), ("add_hook", ("set", 2, "S", Fraction(40))), ("move", "linear", {"y": Fraction(5)}, [("S", Fraction(90))])]),
     (5, [("tool_on", "clockwise", Fraction(1000)), ("power_off",), ("power_on", "dynamic", Fraction(50)),
          ("move", "linear", {"x": Fraction(1)}, [("S", Fraction(80))]), ("tool_off",), ("tool_on", "counter", Fraction(10))]),
     (5, [("move", "linear", {"x": Fraction(10)}, [("F", Fraction(1000))]), ("set_feed", Fraction(500)), ("move", "linear", {"x": Fraction(20)}, []),
